@@ -11,6 +11,7 @@ import (
 	"errors"
 	"fmt"
 	"io"
+	"net/http/httptest"
 	"runtime"
 	"strings"
 	"sync"
@@ -654,6 +655,220 @@ func runDirected1(d Directed, v *vt.V) {
 				return
 			}
 		}
+	case "delete-vs-tagged-push":
+		// immutable tags: a DeleteBlob of a layer nothing refers to yet, against the PushManifest of a
+		// tagged image that refers to it. In either order one of them is refused; a registry that holds
+		// many tagged manifests spends longer over the delete's walk
+		mem := ocimem.NewWithConfig(&ocimem.Config{ImmutableTags: true})
+		const imageMT = "application/vnd.oci.image.manifest.v1+json"
+		pushBlob := func(content string) ociregistry.Descriptor {
+			desc := ociregistry.Descriptor{MediaType: "application/octet-stream", Digest: digest.FromString(content), Size: int64(len(content))}
+			if _, err := mem.PushBlob(ctx, "foo", desc, strings.NewReader(content)); err != nil {
+				v.Failf("harness", "%v", err)
+			}
+			return desc
+		}
+		image := func(config, layer ociregistry.Descriptor, note string) []byte {
+			return []byte(fmt.Sprintf(`{"schemaVersion":2,"mediaType":%q,"config":{"mediaType":%q,"digest":%q,"size":%d},"layers":[{"mediaType":%q,"digest":%q,"size":%d}],"annotations":{"note":%q}}`,
+				imageMT, config.MediaType, config.Digest, config.Size, layer.MediaType, layer.Digest, layer.Size, note))
+		}
+		config, base := pushBlob("{}"), pushBlob("base layer")
+		old := 30
+		if d.Size > 4 {
+			old = 400
+		}
+		for i := 0; i < old; i++ {
+			if _, err := mem.PushManifest(ctx, "foo", fmt.Sprintf("old%d", i), image(config, base, fmt.Sprint("old", i)), imageMT); err != nil {
+				v.Failf("harness", "%v", err)
+				return
+			}
+		}
+		for i := 0; i < d.Iters*30/old; i++ {
+			layer := pushBlob(fmt.Sprintf("layer %d", i))
+			tag := fmt.Sprintf("new%d", i)
+			man := image(config, layer, tag)
+			var wg sync.WaitGroup
+			var delErr, pushErr error
+			wg.Add(2)
+			go func() {
+				defer wg.Done()
+				delErr = mem.DeleteBlob(ctx, "foo", layer.Digest)
+			}()
+			go func() {
+				defer wg.Done()
+				for j := 0; j < (i%32)*(old/8); j++ {
+					_ = digest.FromString("x") // vary the timing a little
+				}
+				_, pushErr = mem.PushManifest(ctx, "foo", tag, man, imageMT)
+			}()
+			wg.Wait()
+			_, layerErr := mem.ResolveBlob(ctx, "foo", layer.Digest)
+			if pushErr == nil && (delErr == nil || layerErr != nil) {
+				v.Failf("delete-and-tagged-push-both-succeed", "%s, iteration %d (immutable tags, %d tagged manifests in the repository): PushManifest of a tagged image answered success and DeleteBlob of its layer answered %v at the same time; the layer now resolves with %v - no order of the two explains that", d.Family, i, old, delErr, layerErr)
+				return
+			}
+			if pushErr != nil {
+				if _, err := mem.ResolveTag(ctx, "foo", tag); err == nil {
+					v.Failf("failed-push-left-tag", "%s, iteration %d: PushManifest failed (%v) and the tag resolves", d.Family, i, pushErr)
+					return
+				}
+			}
+		}
+	case "resume-hint-vs-write":
+		// further handles opened on a session (with a chunk-size hint, as ociserver passes the request's
+		// content length) while another goroutine writes through the first handle: opening a handle
+		// changes nothing, so every acknowledged write stays and Size never goes back
+		mem := ocimem.New()
+		for i := 0; i < max(d.Iters/40, 3); i++ {
+			w0, err := mem.PushBlobChunked(ctx, "foo", 0)
+			if err != nil {
+				v.Failf("harness", "%v", err)
+				return
+			}
+			chunk := bytes.Repeat([]byte{byte('a' + i%26)}, max(d.Size, 1))
+			nwrites := 4000
+			if d.Size > 4 {
+				nwrites = 400
+			}
+			var stop atomic.Bool
+			var wg sync.WaitGroup
+			var bad atomic.Value
+			for g := 0; g < 4; g++ {
+				wg.Add(1)
+				go func() {
+					defer wg.Done()
+					hint := []int{1, 4096, 4096, 1 << 16}[g]
+					for !stop.Load() {
+						if w, err := mem.PushBlobChunkedResume(ctx, "foo", w0.ID(), -1, hint); err == nil {
+							w.Close()
+						} else {
+							bad.Store(fmt.Sprintf("PushBlobChunkedResume(offset -1, chunkSize %d) failed: %v", hint, err))
+							return
+						}
+					}
+				}()
+			}
+			var last int64
+			for j := 0; j < nwrites && bad.Load() == nil; j++ {
+				if _, err := w0.Write(chunk); err != nil {
+					bad.Store(fmt.Sprintf("Write %d through the first handle failed: %v", j, err))
+					break
+				}
+				if sz := w0.Size(); sz < last || sz != int64((j+1)*len(chunk)) {
+					bad.Store(fmt.Sprintf("after %d acknowledged writes of %d bytes through the first handle Size() = %d (it was %d before)", j+1, len(chunk), sz, last))
+					break
+				} else {
+					last = sz
+				}
+			}
+			stop.Store(true)
+			wg.Wait()
+			if x := bad.Load(); x != nil {
+				v.Failf("acknowledged-write-lost", "%s, iteration %d: one goroutine writes through a handle while another opens and closes further handles on the same session: %v", d.Family, i, x)
+				return
+			}
+			all := bytes.Repeat(chunk, nwrites)
+			if _, err := w0.Commit(digest.FromBytes(all)); err != nil {
+				v.Failf("acknowledged-write-lost", "%s, iteration %d: %d writes of %d bytes were acknowledged while further handles were opened on the session; Commit(digest of all of them) answered %v", d.Family, i, nwrites, len(chunk), err)
+				return
+			}
+		}
+	case "patch-range-vs-append":
+		// over HTTP: a PATCH of one chunk at offset 0 while another client keeps trying to append the next
+		// chunk right behind it. The append is accepted only once the first chunk is there, so it comes
+		// after the PATCH: the PATCH's answer tells what the session held when it was done - its own chunk
+		mem := ocimem.New()
+		srv := ociserver.New(mem, nil)
+		chunk := bytes.Repeat([]byte("p"), max(d.Size, 1))
+		for i := 0; i < d.Iters*4; i++ {
+			rec := httptest.NewRecorder()
+			srv.ServeHTTP(rec, httptest.NewRequest("POST", "/v2/foo/blobs/uploads/", nil))
+			loc := rec.Header().Get("Location")
+			if rec.Code != 202 || loc == "" {
+				v.Failf("harness", "POST answered %d %s", rec.Code, rec.Body.String())
+				return
+			}
+			var done atomic.Bool
+			var wg sync.WaitGroup
+			appended := false
+			wg.Add(1)
+			go func() {
+				defer wg.Done()
+				for !done.Load() && !appended {
+					req := httptest.NewRequest("PATCH", loc, bytes.NewReader([]byte("q")))
+					req.Header.Set("Content-Range", fmt.Sprintf("%d-%d", len(chunk), len(chunk)))
+					r2 := httptest.NewRecorder()
+					srv.ServeHTTP(r2, req)
+					appended = r2.Code == 202
+				}
+			}()
+			req := httptest.NewRequest("PATCH", loc, bytes.NewReader(chunk))
+			req.Header.Set("Content-Range", fmt.Sprintf("0-%d", len(chunk)-1))
+			r1 := httptest.NewRecorder()
+			srv.ServeHTTP(r1, req)
+			done.Store(true)
+			wg.Wait()
+			if want := fmt.Sprintf("0-%d", len(chunk)-1); r1.Code != 202 || r1.Header().Get("Range") != want {
+				v.Failf("patch-answer-from-later-state", "%s, iteration %d: PATCH of %d bytes at offset 0 of a fresh upload answered %d with Range %q, want 202 with Range %q (another client was appending one byte behind it, accepted: %v - which can only come after this request)", d.Family, i, len(chunk), r1.Code, r1.Header().Get("Range"), want, appended)
+				return
+			}
+		}
+	case "tag-flip-http":
+		// tag-flip with the readers asking through ociserver (one request each); the larger size serves
+		// with the options that make the server describe content before it sends it
+		mem := ocimem.New()
+		opts := &ociserver.Options{}
+		if d.Size > 4 {
+			opts.LocationsForDescriptor = func(isManifest bool, desc ociregistry.Descriptor) ([]string, error) {
+				runtime.Gosched()
+				return nil, nil
+			}
+		}
+		srv := ociserver.New(mem, opts)
+		const mt = "application/vnd.verif.opaque"
+		a, b := []byte(`{"m":"a"}`), []byte(`{"m":"b"}`)
+		da, db := digest.FromBytes(a), digest.FromBytes(b)
+		if _, err := mem.PushManifest(ctx, "foo", "t", a, mt); err != nil {
+			v.Failf("harness", "%v", err)
+			return
+		}
+		var stop atomic.Bool
+		var bad atomic.Value
+		var wg sync.WaitGroup
+		for r := 0; r < 4; r++ {
+			wg.Add(1)
+			go func() {
+				defer wg.Done()
+				for !stop.Load() {
+					method := "GET"
+					if r == 3 {
+						method = "HEAD"
+					}
+					rec := httptest.NewRecorder()
+					srv.ServeHTTP(rec, httptest.NewRequest(method, "/v2/foo/manifests/t", nil))
+					if rec.Code != 200 {
+						bad.Store(fmt.Sprintf("%s /v2/foo/manifests/t answered %d %s", method, rec.Code, rec.Body.String()))
+						return
+					}
+					if body := rec.Body.Bytes(); method == "GET" && !bytes.Equal(body, a) && !bytes.Equal(body, b) {
+						bad.Store(fmt.Sprintf("GET /v2/foo/manifests/t returned foreign bytes %q", body))
+						return
+					}
+				}
+			}()
+		}
+		for i := 0; i < d.Iters*2 && bad.Load() == nil; i++ {
+			mem.PushManifest(ctx, "foo", "t", b, mt)
+			mem.DeleteManifest(ctx, "foo", da)
+			mem.PushManifest(ctx, "foo", "t", a, mt)
+			mem.DeleteManifest(ctx, "foo", db)
+		}
+		stop.Store(true)
+		wg.Wait()
+		if x := bad.Load(); x != nil {
+			v.Failf("tag-reported-missing", "%s (LocationsForDescriptor set: %v): tag moved between two manifests, the old one deleted each time, 4 readers asking the server: %v", d.Family, d.Size > 4, x)
+			return
+		}
 	case "shared-handle-writes":
 		// several goroutines write through ONE handle that was opened at the right offset: in every
 		// sequential order each write is accepted (the handle's offset was right when it first wrote)
@@ -827,7 +1042,7 @@ func init() {
 	propDirected = &vt.Prop[Directed]{
 		ID:   "C08",
 		Name: "DirectedRaces",
-		Rule: "directed workload families aimed at the registry's two-step operations, each a loop of racing goroutines under -race: tag-flip (a tag moved back and forth between two manifests, the old one deleted each time, while 4 readers GetTag: never missing, never foreign bytes), commit-vs-write / resume-vs-write (one goroutine commits digest(X) while another writes to the same session: a successful commit stores exactly X with the right size, a failed one stores nothing), commit-vs-cancel / commit-vs-wrong-commit / commit-vs-write-commit (every commit that reports success leaves exactly its content retrievable under its digest; nothing is ever stored under the empty digest), stale-write-vs-status / good-write-vs-wrong-offset (a handle opened at a stale offset is refused, one opened at the right offset is accepted, whatever offsets other handles on the same session are opened at meanwhile), first-resume-race (goroutines opening the same fresh upload id at once share one session: no acknowledged write is lost), same-offset-race (of several handles opened at the same offset and writing at once exactly one is accepted), shared-handle-writes (goroutines writing at once through one handle opened at the right offset are all accepted), cancel-during-commit (a Cancel that returns nil while a Commit is in flight: if the commit succeeded the blob is there once the Cancel has returned), write-during-commit (a Write that succeeds while a Commit is in flight either makes the commit fail or finds the committed blob in place once it has returned), interleaved-chunks (over HTTP: a chunk request is served while another one's body is half delivered - the requests must take effect one after the other), concurrent-listings (over HTTP: 8 clients list tags, repositories and referrers of a registry nobody writes to - every answer is the one the request gets when asked alone), stalled-push (a PushBlob - direct or as one HTTP request - whose content source stalls: operations on another repository complete meanwhile), reentrant-listing (a consumer resolves each tag while it iterates over Tags inside an iteration over Repositories, and another goroutine pushes between two items: nothing waits for the iteration); distinct = (family, iterations, size)",
+		Rule: "directed workload families aimed at the registry's two-step operations, each a loop of racing goroutines under -race: tag-flip (a tag moved back and forth between two manifests, the old one deleted each time, while 4 readers GetTag: never missing, never foreign bytes), commit-vs-write / resume-vs-write (one goroutine commits digest(X) while another writes to the same session: a successful commit stores exactly X with the right size, a failed one stores nothing), commit-vs-cancel / commit-vs-wrong-commit / commit-vs-write-commit (every commit that reports success leaves exactly its content retrievable under its digest; nothing is ever stored under the empty digest), stale-write-vs-status / good-write-vs-wrong-offset (a handle opened at a stale offset is refused, one opened at the right offset is accepted, whatever offsets other handles on the same session are opened at meanwhile), first-resume-race (goroutines opening the same fresh upload id at once share one session: no acknowledged write is lost), same-offset-race (of several handles opened at the same offset and writing at once exactly one is accepted), shared-handle-writes (goroutines writing at once through one handle opened at the right offset are all accepted), cancel-during-commit (a Cancel that returns nil while a Commit is in flight: if the commit succeeded the blob is there once the Cancel has returned), write-during-commit (a Write that succeeds while a Commit is in flight either makes the commit fail or finds the committed blob in place once it has returned), interleaved-chunks (over HTTP: a chunk request is served while another one's body is half delivered - the requests must take effect one after the other), concurrent-listings (over HTTP: 8 clients list tags, repositories and referrers of a registry nobody writes to - every answer is the one the request gets when asked alone), stalled-push (a PushBlob - direct or as one HTTP request - whose content source stalls: operations on another repository complete meanwhile), reentrant-listing (a consumer resolves each tag while it iterates over Tags inside an iteration over Repositories, and another goroutine pushes between two items: nothing waits for the iteration), delete-vs-tagged-push (immutable tags: the DeleteBlob of a layer against the PushManifest of a tagged image that refers to it, 30 or 400 tagged manifests in the repository: one of the two is refused), resume-hint-vs-write (handles opened and closed on a session, with chunk-size hints 1 .. 64 KiB by four goroutines, while another goroutine writes through the first handle: every acknowledged write stays, Size never goes back, the commit of everything written succeeds), tag-flip-http (tag-flip with the readers asking ociserver by GET and HEAD, with and without LocationsForDescriptor), patch-range-vs-append (over HTTP: a PATCH at offset 0 while another client keeps trying to append behind it: the PATCH's Range answer covers its own chunk, not the later one); distinct = (family, iterations, size)",
 		Run:  runDirected,
 	}
 }
@@ -841,9 +1056,9 @@ func TestPropDirected(t *testing.T) {
 	vt.Enumerate(t, propDirected, false, func(yield func(Directed) bool) {
 		k := 0
 		for rep := 0; rep < 2; rep++ {
-			for _, f := range []string{"tag-flip", "commit-vs-write", "commit-vs-cancel", "resume-vs-write", "commit-vs-wrong-commit", "commit-vs-write-commit", "stale-write-vs-status", "good-write-vs-wrong-offset", "first-resume-race", "same-offset-race", "shared-handle-writes", "cancel-during-commit", "write-during-commit", "interleaved-chunks", "concurrent-listings", "stalled-push", "reentrant-listing"} {
+			for _, f := range []string{"tag-flip", "commit-vs-write", "commit-vs-cancel", "resume-vs-write", "commit-vs-wrong-commit", "commit-vs-write-commit", "stale-write-vs-status", "good-write-vs-wrong-offset", "first-resume-race", "same-offset-race", "shared-handle-writes", "cancel-during-commit", "write-during-commit", "interleaved-chunks", "concurrent-listings", "stalled-push", "reentrant-listing", "delete-vs-tagged-push", "resume-hint-vs-write", "tag-flip-http", "patch-range-vs-append"} {
 				for _, size := range []int{4, 4096, 1 << 20} {
-					if (f == "tag-flip" || f == "first-resume-race") && size != 4 || (f == "interleaved-chunks" || f == "same-offset-race" || f == "shared-handle-writes" || f == "cancel-during-commit" || f == "concurrent-listings" || f == "reentrant-listing") && size > 4096 || f == "write-during-commit" && size < 1<<20 {
+					if (f == "tag-flip" || f == "first-resume-race") && size != 4 || (f == "interleaved-chunks" || f == "same-offset-race" || f == "shared-handle-writes" || f == "cancel-during-commit" || f == "concurrent-listings" || f == "reentrant-listing" || f == "delete-vs-tagged-push" || f == "tag-flip-http" || f == "patch-range-vs-append" || f == "resume-hint-vs-write") && size > 4096 || f == "write-during-commit" && size < 1<<20 {
 						continue
 					}
 					k++
